@@ -22,6 +22,8 @@ CONSTANTS
   Vals = {%(vals)s}
   MaxLevels = {%(levels)s}
   RichKeys <- %(rich)s
+  Acts <- %(acts)s
+  MaxParked = %(parked)d
   MaxCommits = %(commits)d
   Log <- %(log)s
   Depth = %(depth)d
@@ -32,7 +34,8 @@ CHECK_DEADLOCK FALSE
 INVS = {
     "C01": ("TypeOK Inv_C01_Get Inv_C01_Leaves Inv_C01_Probes", ""),
     "C02": ("TypeOK Inv_C02_Shape Inv_C02_Hash Inv_C02_CacheFresh", ""),
-    "C03": ("TypeOK Inv_C03_RootsInDb Inv_C03_MemoryBacked Inv_DirtyHashes", "Act_C03_Commit Act_C03_Recreate"),
+    "C03": ("TypeOK Inv_C03_RootsInDb Inv_C03_MemoryBacked Inv_DirtyHashes",
+            "Act_C03_Commit Act_C03_Recreate Act_C03_Independent Act_C03_RecreateKeep"),
 }
 # invariants of the trace specification that talk about logged data (the others are functions of the
 # specification's own state: if one of them fails on a trace the model is wrong, not the code)
@@ -77,7 +80,7 @@ def run_trie(ctx):
     t0 = time.time()
     # R1: the node-level state machine, exhaustively
     rest = "VIEW cvars\nINVARIANTS %s\n" % invs + ("PROPERTIES %s\n" % props if props else "")
-    r1 = dict(spec="Spec", log="LogLast", depth=0, rest=rest)
+    r1 = dict(spec="Spec", log="LogLast", depth=0, rest=rest, acts="AllActs", parked=0)
     if q:
         r1.update(keys="K4", vals="1", rich="Rich1", levels="1, 2", commits=1)
     else:
@@ -92,7 +95,7 @@ def run_trie(ctx):
             ctx.broken.append("vacuity guard: actions never taken in the exhaustive run: %s" % missing)
     exe = ctx.go_build("vh-trie")
     # R2a: one behaviour per transition of the abstract state graph (bounded depth)
-    gen = dict(spec="GenSpec", log="LogAppend", rest="VIEW cvars\nACTION_CONSTRAINT EmitEdge")
+    gen = dict(spec="GenSpec", log="LogAppend", rest="VIEW cvars\nACTION_CONSTRAINT EmitEdge", acts="AllActs", parked=0)
     if q:
         gen.update(keys="K6", vals="1, 2", rich="Rich1", levels="1, 2", commits=2, depth=6)
     else:
@@ -112,18 +115,35 @@ def run_trie(ctx):
             distinct_nontrivial=int(r.stats.get("distinct_transitions", 0)),
             distinct_after_commit_or_recreate=int(r.stats.get("distinct_after_reopen", 0)),
             distinct_contents=int(r.stats.get("distinct_contents", 0)))
-    # R2b: long random walks of the specification over a larger key universe
-    sim = dict(spec="GenSpec", log="LogAppend", keys="K7", vals="1, 2", rich="RichAll", levels="1, 2, 3, 5", commits=6,
-               depth=20 if q else 30, rest="ACTION_CONSTRAINT EmitFull")
-    write(sd, "sim.cfg", CFG % sim)
-    beh2 = ctx.path("sim.ndjson")
-    s = ctx.tlc(sd, "MC_Trie", "sim.cfg", simulate=12 if q else 300, depth=sim["depth"], timeout=900,
-                behaviours_out=beh2, count=False)
-    t0 = note(ctx, "R2b simulate", t0)
-    write(ctx.scratch, "keys2.json", s.marks.get("KEYS", "[]"))
-    r2 = ctx.vh(exe, ["replay", beh2, "@" + ctx.path("keys2.json")], timeout=1800, count_samples=False)
-    t0 = note(ctx, "R2b replay", t0)
-    ctx.cov(traces_validated_against_impl=int(r2.stats.get("behaviours", 0)), evaluations=int(r2.stats.get("steps", 0)))
+    # R2c: several live instances over one storage (C03: the recreated trie behaves like the original, instances are
+    # independent views).  Exhaustive to the depth bound over Update / Commit / RecreateKeep(own or older root) / Switch;
+    # the run also checks the property's invariants over all instances (the design with instances, R1 at bounded depth)
+    inst = dict(spec="GenSpec", log="LogAppend", keys="K3", vals="1", rich="RichAll", levels="1, 2", commits=2,
+                acts="InstActs", parked=1, depth=8 if q else 9,
+                rest="VIEW cvars\nACTION_CONSTRAINT EmitEdge\nINVARIANTS %s\n" % invs + ("PROPERTIES %s\n" % props if props else ""))
+    write(sd, "inst.cfg", CFG % inst)
+    beh3 = ctx.path("inst.ndjson")
+    gi = ctx.tlc(sd, "MC_Trie", "inst.cfg", timeout=900 if q else 3000, behaviours_out=beh3)
+    t0 = note(ctx, "R2c export", t0)
+    write(ctx.scratch, "keys3.json", gi.marks.get("KEYS", "[]"))
+    r4 = ctx.vh(exe, ["replay", beh3, "@" + ctx.path("keys3.json")], timeout=1800, count_samples=False)
+    t0 = note(ctx, "R2c replay", t0)
+    ctx.cov(traces_validated_against_impl=int(r4.stats.get("behaviours", 0)), evaluations=int(r4.stats.get("steps", 0)),
+            multi_instance_behaviours=int(r4.stats.get("multi_instance_behaviours", 0)))
+    if gi.ok and int(r4.stats.get("multi_instance_behaviours", 0)) == 0:
+        ctx.broken.append("the instance cover contains no behaviour with two live instances")
+    # R2b (thorough): long random walks of the specification over a larger key universe, up to 3 live instances
+    if not q:
+        sim = dict(spec="GenSpec", log="LogAppend", acts="AllActs", parked=2, keys="K7", vals="1, 2", rich="RichAll",
+                   levels="1, 2, 3, 5", commits=6, depth=30, rest="ACTION_CONSTRAINT EmitFull")
+        write(sd, "sim.cfg", CFG % sim)
+        beh2 = ctx.path("sim.ndjson")
+        s = ctx.tlc(sd, "MC_Trie", "sim.cfg", simulate=300, depth=sim["depth"], timeout=1800, behaviours_out=beh2, count=False)
+        t0 = note(ctx, "R2b simulate", t0)
+        write(ctx.scratch, "keys2.json", s.marks.get("KEYS", "[]"))
+        r2 = ctx.vh(exe, ["replay", beh2, "@" + ctx.path("keys2.json")], timeout=1800, count_samples=False)
+        t0 = note(ctx, "R2b replay", t0)
+        ctx.cov(traces_validated_against_impl=int(r2.stats.get("behaviours", 0)), evaluations=int(r2.stats.get("steps", 0)))
     # R3: random histories on the real trie, validated by TLC
     tr = os.path.join(sd, "trace.ndjson")
     nt, ln = (8, 50) if q else (60, 150)
@@ -137,16 +157,20 @@ def run_trie(ctx):
         ctx.cov(traces_validated_against_impl=nt, evaluations=int(r3.stats.get("events", 0)))
     if not q and st == "accepted":
         selftests_trie(ctx, sd, tr)
-    ctx.cov(rule="R1: exhaustive over %s, values {%s} (second value only for key 0x1122), maxTrieLevelInMemory {%s}, <= %d committed roots. "
-                 "R2: one behaviour per transition of the abstract state graph up to depth %d (%s, values {%s}, levels {%s}) "
-                 "plus simulated walks of %d steps over 7 keys, replayed on the real trie: every Get / RootHash / Commit / "
-                 "Recreate result is compared with the specification, and after the last step all keys are read, the trie "
-                 "is committed, its leaves enumerated and every root committed in the behaviour is recreated (also from a "
-                 "trie with another maxTrieLevelInMemory) and read back; root hashes of all behaviours of the run are "
-                 "compared as partitions with the specification's contents. distinct = distinct (contents before, action, "
-                 "arguments, maxLevel). R3: random real histories (6-16 structured keys, commits, recreates) validated by TLC."
-                 % (r1["keys"], r1["vals"], r1["levels"], r1["commits"], gen["depth"] - 1, gen["keys"], gen["vals"],
-                    gen["levels"], sim["depth"] - 1))
+    ctx.cov(rule="R1: exhaustive over %s (one instance), values {%s}, maxTrieLevelInMemory {%s}, <= %d committed roots. "
+                 "R2a: one behaviour per transition of the abstract state graph up to %d operations (%s, values {1,2} on key 1122, "
+                 "levels {%s}); R2c: the same over %d operations of Update/Commit/RecreateKeep/Switch with two live instances on one "
+                 "storage (3 keys)%s. All replayed on the real trie: every Get / RootHash / Commit / Recreate result is compared "
+                 "with the specification; every live instance is kept as a real object in its slot, the root hash of the "
+                 "instances not addressed is checked after every step, and each multi-instance behaviour is run a second time "
+                 "with a full read (all keys + never-written probes, root hash) of EVERY instance after EVERY step; after the "
+                 "last step all instances are read, the addressed one is committed, its leaves enumerated and every root "
+                 "committed in the behaviour is recreated (also from a trie with another maxTrieLevelInMemory) and read back; "
+                 "root hashes of all behaviours of the run are compared as partitions with the specification's contents. "
+                 "distinct = distinct (contents of all instances before, action, arguments, maxLevel). R3: random real "
+                 "histories (6-16 structured keys, commits, recreates, up to 4 live instances) validated by TLC."
+                 % (r1["keys"], r1["vals"], r1["levels"], r1["commits"], gen["depth"] - 1, gen["keys"], gen["levels"],
+                    inst["depth"] - 1, "" if q else "; R2b: 300 simulated walks of 29 steps over 7 keys, up to 3 instances"))
 
 
 def event_property(ev, recreated):
